@@ -258,6 +258,35 @@ def known_findings(prop):
     return [f for f in data.get("findings", []) if f.get("property") == prop and f.get("status") == "known"]
 
 
+def relevant_extractors(modules):
+    """names of the tools/extractors/<x>.py whose generated module QuillModel.Extracted.<X> is imported, directly or not,
+    by the given Lean modules (None when the import graph cannot be read)"""
+    try:
+        seen, todo, out = set(), list(modules), set()
+        while todo:
+            m = todo.pop()
+            if m in seen or not m.startswith("QuillModel"):
+                continue
+            seen.add(m)
+            if m.startswith("QuillModel.Extracted."):
+                x = m.split(".")[-1]
+                out.add(x[0].lower() + x[1:])
+                continue
+            path = os.path.join(LEAN_DIR, *m.split(".")) + ".lean"
+            if not os.path.exists(path):
+                continue
+            with open(path, encoding="utf-8") as f:
+                for ln in f:
+                    mm = re.match(r"\s*(?:public\s+)?import\s+(QuillModel\.\S+)", ln)
+                    if mm:
+                        todo.append(mm.group(1))
+                    elif ln.strip() and not ln.startswith(("import", "--", "/-", "public import")) and "import" not in ln:
+                        break
+        return out
+    except Exception:
+        return None
+
+
 class Check:
     """one run of one property's check"""
 
@@ -298,7 +327,13 @@ class Check:
         broken = []
         ex = run_extract()
         if ex.get("failures"):
-            broken.append("extraction: " + "; ".join(ex["failures"]))
+            # only the extractors this property's modules actually import count: a construct that another bundle's
+            # extractor can no longer find is that bundle's broken tie, not this one's
+            rel = relevant_extractors(list(modules) + list(obligations_modules))
+            by = ex.get("failures_by")
+            mine = [f for n, fs in by.items() if n in rel for f in fs] if isinstance(by, dict) and rel is not None else ex["failures"]
+            if mine:
+                broken.append("extraction: " + "; ".join(mine))
         self.extracted = ex
         targets = list(modules) + list(obligations_modules) + ["driver"]
         ok, log = lake_build(targets)
